@@ -527,6 +527,13 @@ def _concolic(c, cfg, ctx, D, inp, obs, Pnat, snap_n, res):
     if m is None:
         res['concolic_skipped'] += 1
         return
+    # z3's nonlinear engine occasionally returns models that do not satisfy the assertions: never
+    # compare against such a model
+    for a in ctx.solver.assertions():
+        if not z3.is_true(m.eval(a, model_completion=True)):
+            res['concolic_skipped'] += 1
+            res['model_invalid'] = res.get('model_invalid', 0) + 1
+            return
     vals = ctx.model_inputs(m)
     sym_c = canon(_strip_private(obs), m)
     ND = NativeDecl(vals)
